@@ -23,6 +23,8 @@ void (* simk_on_poll_eintr)(void) = NULL;
 void (* simk_on_poll)(struct pollfd *, nfds_t, int, int, uint64_t, uint64_t) = NULL;
 void (* simk_on_poll_entry)(struct pollfd *, nfds_t, int) = NULL;
 void (* simk_on_deadlock)(void) = NULL;
+uint64_t simk_busy_limit = 0;
+void (* simk_on_busy)(void) = NULL;
 void (* simk_on_world_change)(int, const char *, long) = NULL;
 uint64_t simk_poll_oversleep_us = 0;
 int (* simk_connect_hook)(int, const struct sockaddr *, socklen_t) = NULL;
@@ -391,6 +393,18 @@ __wrap_poll(struct pollfd * fds, nfds_t n, int timeout)
 	int rc;
 
 	simk_npoll++;
+	/* Polling on and on while (virtual) time stands still: a busy loop. */
+	if (simk_busy_limit != 0) {
+		static uint64_t lastnow, same;
+
+		if (simk_now_us != lastnow) {
+			lastnow = simk_now_us;
+			same = 0;
+		} else if (++same > simk_busy_limit && simk_on_busy != NULL) {
+			same = 0;
+			simk_on_busy();
+		}
+	}
 	if (simk_on_poll_entry != NULL)
 		simk_on_poll_entry(fds, n, timeout);
 	simk_apply_due();
